@@ -1,7 +1,7 @@
 (* C17 — Which files belong in a module zip is a fixed function of the tree.
    Property theorems only; each is closed by [exact] of a lemma proved in Zip/Proofs*.v. *)
 From Verif.Base Require Import Bytes PathClean.
-From Verif.Zip Require Import Check ProofsClass.
+From Verif.Zip Require Import Check ProofsColl ProofsClass.
 
 (* For a list of files with distinct paths, every path is in exactly one of Valid, Omitted
    and Invalid of the report of checkFiles (whatever the go version regime ge124), and the
@@ -9,7 +9,6 @@ From Verif.Zip Require Import Check ProofsClass.
 Theorem C17_classification_total_exclusive :
   forall (ge124 : bool) (files : list file),
     NoDup (map f_path files) ->
-    c_fuel (check_files_with ge124 files) = false ->
     (forall p, In p (map f_path files) ->
        count_occ str_eq_dec
          (c_valid (check_files_with ge124 files)
@@ -22,3 +21,9 @@ Theorem C17_classification_total_exclusive :
        In p (map f_path files)).
 Proof. exact classification_total_exclusive. Qed.
 Print Assumptions C17_classification_total_exclusive.
+
+(* the fuel of the collision checker never runs out in checkFiles *)
+Theorem C17_check_files_no_fuel :
+  forall (ge124 : bool) (files : list file), c_fuel (check_files_with ge124 files) = false.
+Proof. exact check_files_no_fuel. Qed.
+Print Assumptions C17_check_files_no_fuel.
